@@ -12,30 +12,30 @@ CLAIMED = {
  "C14": ("write-effect analysis restricted to caller-supplied Schema memory and the instance; alias rule on the annotation set helpers; who-may-call on nondeterminism sources; order-insensitivity classifier over map iterations",
          "Purity as absence of writes to the input schema tree and the instance, no aliasing between annotation sets, nondeterminism confined to map iteration and a seed that only reaches SetSeed. Not an observation of equal results across processes.", "4/C14"),
  "C18": ("field-read effect analysis of the closure of Validate against a frozen keyword classification; provenance of the bytes handed to reflective struct decoding; type-level check of Extra",
-         "Non-interference as a read effect: no non-asserting, container or meta field of Schema is read on any path reachable from Validate; the keyword decoder is case-exact by construction; unknown keywords cannot be rejected by type. Not an observed verdict equality.", "4/C18"),
+         "Non-interference as a read effect: no non-asserting, container or meta field of Schema is read on any path reachable from Validate; the keyword decoder is case-exact by construction; unknown keywords cannot be rejected by type, and neither they nor default/examples by a number beyond the float64 range (generic decodes retried with UseNumber). Not an observed verdict equality.", "4/C18"),
 }
 
 CLAIMED.update({
  "C02": ("finite string-partition abstract evaluation of the version predicate and draft detector; dominance of the version gate; reachability of field reads before the draft-07 $ref short-circuit; access-path provenance of inherited $schema and draft; dominating draft guards of anchor registration",
-         "Structure of draft selection decided for all inputs: the set of supported $schema values, refusal before evaluation, the $ref short-circuit and $id-beside-$ref rule under draft-07, root provenance of the inherited draft, draft gating of anchors. Not the draft-07 verdict of concrete cases.", "4/C02"),
+         "Structure of draft selection decided for all inputs: the set of supported $schema values, refusal before evaluation, the $ref short-circuit and $id-beside-$ref rule under draft-07, root provenance of the inherited draft, draft gating of anchors, and every use of a keyword that exists in one draft only happening under the test for that draft. Not the draft-07 verdict of concrete cases.", "4/C02"),
  "C05": ("type-level recomputation of the marshal and unmarshal field tables (encoding/json field resolution re-implemented over go/types) and comparison with the Schema struct; guard and post-dominance rules on the splice helpers",
          "Agreement of the writer's and the reader's keyword tables for every field, preservation of significant empty containers, exact boolean folding, unconditional purge of known names from Extra, integer keyword shadowing, const-null handling, exact JSON-name set. Not byte identity or value fidelity.", "4/C05"),
  "C17": ("type-level registry completeness; dominating guards in the pointer field lookup; constant tables of the escape replacers; guard analysis of the pointer walker (checked assertion, validity tests, both index bounds)",
-         "Every schema-bearing field is registered and addressable, ambiguous JSON names are special-cased before the last-writer-wins map, escape tables are RFC 6901's, failed lookups become errors. Not which subschema a concrete pointer selects.", "4/C17"),
+         "Every schema-bearing field is registered and addressable, ambiguous JSON names are special-cased before the last-writer-wins map, escape tables are RFC 6901's, failed lookups become errors, and no error of the resolution code is overwritten or dropped before it is looked at. Not which subschema a concrete pointer selects.", "4/C17"),
  "C20": ("type-level registry completeness; sibling agreement on the three shapes across traversals; control-dependence of the clone write-backs; allocation-site freshness of cloned containers and elements",
-         "The clone loop is total over schema-bearing fields, writes back only fresh containers filled with recursive clones, and the structure check rejects a shared Schema object. Not observed equality of marshaled output.", "4/C20"),
+         "The clone loop is total over schema-bearing fields, writes back only fresh containers filled with recursive clones, a nil container is produced only for a nil original, and the structure check rejects a shared Schema object. Not observed equality of marshaled output.", "4/C20"),
 })
 
 CLAIMED.update({
  "C03": ("dominance of the two cache insertions over the descent into references; dominating miss-guards and key identity at the Loader call; must-pass-through of the side-table merge on every path from a foreign root to its use as a key; provenance of successful returns, of the lookup URI and of stored targets",
-         "Bookkeeping shape of reference resolution for every topology: cache-before-recursion under both URIs, loader only on miss, foreign tables merged, no fallback target, base of the enclosing resource, per-occurrence resolution, anchors scoped to their base. Not RFC 3986 itself nor the target of a concrete topology.", "4/C03"),
+         "Bookkeeping shape of reference resolution for every topology: cache-before-recursion under both URIs, loader only on miss, foreign tables merged, no fallback target, base of the enclosing resource, per-occurrence resolution, anchors scoped to their base, BaseURI used as the root's base unless empty, no resolution error dropped. Not RFC 3986 itself nor the target of a concrete topology.", "4/C03"),
  "C06": ("push/pop discipline of the evaluation stack by dominance and defer analysis; write-effect analysis of the closure of Validate (no state survives a call); exclusive-outcome and guard analysis of the lexical/dynamic split; shape of the outermost-first search",
          "The dynamic scope is a per-call stack pushed once and popped on every exit, nothing else is mutable or shared, resolution records lexical xor dynamic behaviour, and the search is outermost-first through base resources. Not the target selected for a concrete topology.", "4/C06"),
 })
 
 CLAIMED.update({
  "C08": ("sibling agreement between the type classifier and the number extractor (recogniser sets); accessor/setter pairing and exactness lint in the extractor; reflect-kind dataflow after the stripping loop and at every keyword group; key-provenance rule on reflect map accesses",
-         "Representation independence as code shape: same numeric sources recognised by classifier and extractor, exact extraction, pointer/interface stripping in any nesting, keys converted to the map's key type, keyword groups guarded by (and covering) the right kinds, equality normalising wrappers. Not verdict equality for concrete values.", "4/C08"),
+         "Representation independence as code shape: same numeric sources recognised by classifier and extractor, exact extraction, pointer/interface stripping in any nesting, keys converted to the map's key type, keyword groups guarded by (and covering) the right kinds, equality normalising wrappers, property names evaluated as Go strings. Not verdict equality for concrete values.", "4/C08"),
  "C11": ("guard/dominance analysis of the equality function: numbers first through the exact extractor, exactness lint over the closure of Equal, reflect-kind dataflow at the kind-mismatch exit, length-before-elements and missing-key guards on every recursive call, kind sets at explicit panics",
          "Structure of JSON equality decided for all inputs: exact numeric comparison first, number never equals non-number, wrappers stripped on both sides, arrays vs slices element-wise, lengths before elements, missing keys unequal, identity shortcuts after length tests, panics only outside the JSON domain. Not the algebraic laws.", "4/C11"),
  "C12": ("control dependence of the enum/const/uniqueItems failure exits on the equality function; must-pass-through of bucket recording; sibling agreement between hasher and equality via reflect-kind dataflow at every hash write; sort-before-use of map keys; def-use of the hash seed",
@@ -49,23 +49,23 @@ CLAIMED.update({
 
 CLAIMED.update({
  "C04": ("reflect-kind dataflow over the type dispatch of the inference function; guard vocabulary of the null-adding stores; frozen table of marshaler types; constant comparison of integer bounds; guard analysis of the required list; purity and provenance rules on the tag parser",
-         "Code-shape clauses of inference soundness: kinds handled, null only extends an existing type, marshaler table matches the JSON encodings (big.Int is a known finding), embedded fields treated as encoding/json treats them (name tags, non-struct types; fields promoted through an embedded pointer being required is a known finding), bounds equal kind ranges, required iff neither omitempty nor omitzero, tag parser pure, exact integrality test, every schema-returning exit passes the pointer-flag test. Not agreement with encoding/json's dynamic field resolution.", "4/C04"),
+         "Code-shape clauses of inference soundness: kinds handled, null only extends an existing type, marshaler table matches the JSON encodings (big.Int is a known finding), embedded fields treated as encoding/json treats them (name tags, non-struct types; fields promoted through an embedded pointer being required is a known finding), bounds equal kind ranges, required iff neither omitempty nor omitzero, fields with one JSON name resolved by depth, tag parser pure, exact integrality test, every schema-returning exit passes the pointer-flag test. Not agreement with encoding/json's dynamic field resolution.", "4/C04"),
  "C09": ("dominating-guard and skippability analysis of the struct path (closed objects, required), constant bounds table with allocation freshness, provenance of array length and element schemas, independence of the numeric keyword group from `type`",
          "Inferred schemas are tight in shape: every struct closed, required exactly under the two option tests, bounds equal to kind ranges and fresh, array length fixed, element schemas recursive, bounds enforced for nullable integers. Not agreement with the decoder.", "4/C09"),
  "C15": ("dominating guards of every instance mutation in the default applier (not-required, missing/present), provenance of inserted values, sibling agreement between applier and has-nested-defaults predicate, skippability and traversal analysis of default validation",
          "Defaults are applied only to missing, non-required properties with fresh copies of the declared default (or containers under the predicate); present values are written back unchanged; default validation covers the full tree and can be skipped by nothing but the absence of a default. Not idempotence as an observation.", "4/C15"),
  "C16": ("clone-provenance of every table/override schema entering the result; write-effect analysis of the closure of For; test-mark-defer discipline of the cycle set; order-insensitivity classifier; tag parser purity and option provenance; index-prefix comparison for promoted fields",
-         "Isolation and determinism of inference: substituted schemas always cloned, no shallow copies, per-call table and cycle set, nothing shared is written, cycle mark removed on every exit, map iterations order-insensitive, tag options exact, order de-duplicated. Not agreement with encoding/json's name resolution by depth (D9).", "4/C16"),
+         "Isolation and determinism of inference: substituted schemas always cloned, no shallow copies, per-call table and cycle set, nothing shared is written, cycle mark removed on every exit, map iterations order-insensitive, tag options exact, order de-duplicated whenever a name can have been entered twice. Not full agreement with encoding/json's name resolution (only: decided by name and depth, shallower wins).", "4/C16"),
 })
 
 CLAIMED.update({
- "C01": ("field-read coverage of the closure of Validate against the keyword classification; guard analysis of the two `type` forms; provenance of the integers compared with minLength/maxLength; finite ordering evaluation of the four bound comparisons; dominating guards of additionalProperties; plus shared rules (order, visits-all, presence-is-nil, order-insensitivity, per-occurrence references)",
-         "Necessary clauses of 2020-12 validity visible in the code on every path: every keyword has a handler, integer-is-number in both type forms, lengths in code points, bounds fail on exactly the right orderings, additionalProperties blind to annotations, in-place applicators before unevaluated*, deterministic iteration. Not the verdict of any schema/instance pair.", "4/C01"),
+ "C01": ("field-read coverage of the closure of Validate against the keyword classification; guard analysis of the two `type` forms; provenance of the integers compared with minLength/maxLength; finite ordering evaluation of the four bound comparisons; dominating guards of additionalProperties; provenance of compiled patterns and of every pattern verdict; plus shared rules (annotation flow of C07, order, visits-all, presence-is-nil, order-insensitivity, per-occurrence references)",
+         "Necessary clauses of 2020-12 validity visible in the code on every path: every keyword has a handler, integer-is-number in both type forms, lengths in code points, bounds fail on exactly the right orderings, additionalProperties blind to annotations, in-place applicators before unevaluated*, annotation flow, patterns compiled from the keyword text and decided by the regexp engine alone, deterministic iteration. Not the verdict of any schema/instance pair.", "4/C01"),
 })
 
 CLAIMED.update({
  "C10": ("inventory of explicit panics and assertions with reflect-kind dataflow at each; kind-precondition analysis of every partial reflect operation with call-site propagation; iterator-protocol reachability; nil-guard dominance for callback and (nil, nil) results; strongly connected components of the static call graph against a table of terminating shapes, each with its own checked obligation",
-         "Panic sites unreachable for JSON-shaped inputs or discharged by named rules, partial reflect operations guarded, iterators obey the yield protocol, callback and optional results nil-tested, every recursive component of a known terminating shape with its seen-set / cache / tree-check obligation. Not the absence of all run-time panics.", "4/C10"),
+         "Panic sites unreachable for JSON-shaped inputs or discharged by named rules, partial reflect operations guarded, iterators obey the yield protocol, callback and optional results nil-tested, every recursive component of a known terminating shape with its seen-set / cache / tree-check obligation, element-type walks bounded by a visited set, prefix slices guarded by a length comparison. Not the absence of all run-time panics.", "4/C10"),
 })
 
 NOT_YET = "static clauses designed in DESIGN.md section 4 but the rule is not built yet in this session"
